@@ -346,7 +346,9 @@ def c05_chains(tier, rnd):
                 if k == "L":
                     items.append(Open(define=[(False, n, al.call("define", [S("a") if d % 2 == 0 else S("b")] + ([NONE] if d == 0 else [])))], sattr=[]))
                 elif k == "G":
-                    items.append(Open(define=[(True, n, al.call("define", [S("c")]))], sattr=[]))
+                    # (every global definition of a chain has a value of its own: which one is visible after a
+                    # local scope between them ended is the point)
+                    items.append(Open(define=[(True, n, al.call("define", [S(["c", "p", "u"][d])]))], sattr=[]))
                 else:
                     items.append(Open(rep=(False, n, al.call("repeat", [SEQ([S("a"), S("b")]), SEQ([])])), sattr=[]))
                 items.append(snp())
@@ -936,11 +938,14 @@ def c08_family(tier, rnd):
     items = [Text("pre\n  "), Open(rep=(False, "x", al.call("repeat", [RANGE(n) for n in lens]))), _repbody("x"), CLOSE, Text("\npost")]
     progs.append(program(items, al.dom, fam="C08:lengths"))
     # boundaries of letter / roman
-    big = [26, 27, 53] if quick else [26, 27, 52, 53, 676, 677, 702, 703, 728, 3999, 4000, 4100]
+    # (TLC's cost is quadratic in the length -- every state carries the output so far: 45 s at 728, some ten
+    # minutes at 4000 with the short body)
+    big = [26, 27, 53] if quick else [26, 27, 52, 53, 676, 677, 702, 703, 728, 3999, 4001]
     for n in big:
         al = Alloc(tier)
         items = [Text("pre\n"), Open(tag="ns", rep=(False, "x", al.call("repeat", [RANGE(n)]))),
-                 _repbody("x", ["index", "letter", "Letter", "roman", "Roman", "end"]), CLOSE, Text("post")]
+                 _repbody("x", ["index", "letter", "Letter", "roman", "Roman", "end"] if n < 1000 else ["roman", "Roman"]),
+                 CLOSE, Text("post")]
         progs.append(program(items, al.dom, fam="C08:big%d" % n))
     # (b) iterable kinds
     kinds = [SEQ([S("a"), S("b"), S("c")]), SEQ([S("a"), S("b")], once=True), SEQ([]), SEQ([], once=True), NONE,
@@ -1411,8 +1416,11 @@ def c10_family(tier, rnd):
         groups = [[Text("t", al.call("content", M), "u")],
                   [Open(name="i", sub=("content", False, al.call("content", M)), sattr=[]), Text("old"), CLOSE],
                   [Open(name="b", sub=("replace", False, al.call("replace", M)), sattr=[]), Text("old"), CLOSE],
-                  [Open(name="u", dattr=[("title", al.call("attrs", M))], sattr=["class"]), Text("k"), CLOSE]]
-        return sum(groups[:n], [])
+                  [Open(name="u", dattr=[("title", al.call("attrs", M))], sattr=["class"]), Text("k"), CLOSE],
+                  # i18n:attributes: a static and a computed attribute offered with the settings of the place
+                  [Open(name="img", sattr=["class", "title"], ia=[("title", "")]), CLOSE],
+                  [Open(name="img", sattr=["alt"], dattr=[("alt", al.call("attrs", [S("a")]))], ia=[("alt", "alt-id")]), CLOSE]]
+        return sum(groups[:n] + (groups[4:] if n >= 4 else []), [])
     for a, b in [({"d": "outer"}, {"d": "inner"}), ({"d": "outer", "c": "oc", "t": "fr"}, {"c": "ic"}), ({}, {"d": "inner", "t": "de"})]:
         al = Alloc(tier)
         items = [Open(name="div", i18n=a or None, sattr=[])] + sites(al) + [Open(name="section", i18n=b or None, sattr=[])] + sites(al) + \
@@ -1467,6 +1475,22 @@ def c10_family(tier, rnd):
             items += [Open(name="b", tr="", sattr=[]), Text("after"), CLOSE]
             progs.append(program(items, al.dom, cfg={"_translate_variant": "identity"}, init=({"x": S("p")} if bound else {}),
                                  fam="C10:T9:%s:%s" % (how, bound)))
+    # T10: i18n:attributes -- static and computed attributes, with and without explicit ids, several clauses, values
+    # that drop the attribute / fall back to the static text / are empty / need escaping; under settings of ancestors
+    avals = [S("a"), S("h"), S(""), NONE, DEFAULT, I(7)] if not quick else [S("a"), S("h"), S(""), NONE, DEFAULT]
+    for ids in (("", ""), ("t-id", ""), ("", "a-id"), ("t-id", "a-id")):
+        for v in variants:
+            for st in (["title", "alt", "class"], [("title", {"v": "R&amp;D $$5 it's", "q": '"'}), ("alt", {"q": "'", "v": ""}), "class"],
+                       [("title", {"q": "", "v": "plain"}), "class"]):
+                al = Alloc(tier)
+                names = [s0 if isinstance(s0, str) else s0[0] for s0 in st]
+                items = [Open(name="div", i18n={"d": "dom", "t": "fr"}, sattr=[]),
+                         Open(name="img", sattr=st, ia=[("title", ids[0])] + ([("alt", ids[1])] if "alt" in names else [])), CLOSE,
+                         Open(name="img", sattr=st, dattr=[("title", al.call("attrs", avals))], ia=[("title", ids[0])]), CLOSE,
+                         Open(name="img", sattr=["class"], dattr=[("alt", al.call("attrs", avals)), ("id", al.call("attrs", [S("b")]))],
+                              ia=[("alt", ids[1])], i18n={"c": "ctx"}), CLOSE,
+                         CLOSE, Open(name="img", sattr=["title"], ia=[("title", ids[0])]), CLOSE]
+                add(items, al, "T10:%s:%s:%s" % ("/".join(ids), v, ",".join(names)), v)
     # T8: the translation settings of a subtree that failed under tal:on-error end with it
     for sets in ({"d": "inner"}, {"c": "ic", "t": "fr"}, {"d": "inner", "c": "ic", "t": "de"}):
         for outer in ({}, {"d": "outer"}):
